@@ -364,6 +364,7 @@ func runCase(c *Case) {
 	close(w.idle)
 
 	var evs []string
+	var lastDone *bitcoin.Hash32 // the block whose download completed last
 	for _, e := range c.Ops {
 		switch e.K {
 		case "chain":
@@ -470,6 +471,10 @@ func runCase(c *Case) {
 				time.Sleep(300 * time.Millisecond)
 			}
 			w.deliver(p, kind)
+			if kind == "ok" {
+				h := p.hash
+				lastDone = &h
+			}
 			again := w.rest(6*time.Second, nil)
 			if e.K == "fail" && again == nil {
 				// recovery: after a failed attempt the same block has to be requested again
@@ -484,6 +489,16 @@ func runCase(c *Case) {
 			} else {
 				evs = append(evs, "EFail")
 			}
+		case "late":
+			w.src.Lock()
+			p := w.src.pending
+			w.src.Unlock()
+			if p == nil || lastDone == nil || lastDone.Equal(&p.hash) {
+				continue // not an event of this history
+			}
+			bm.VerifFinishDownloader(ctx, *lastDone, nil)
+			w.rest(300*time.Millisecond, p) // nothing is due: the pending request stays
+			evs = append(evs, "ELate")
 		case "tick":
 			// the 10 s poll: wait until the pending request is cancelled (or 13 s)
 			w.src.Lock()
@@ -705,6 +720,10 @@ func genCase(r *coqfmt.Rand, id int, tier string) Case {
 			rem = rem[1:]
 			if len(rem) == 0 {
 				endRound()
+			} else if r.Chance(1, 3) {
+				// the download thread of the block just processed ends late: its completion
+				// callback reaches the manager while the next block's request is pending
+				c.Ops = append(c.Ops, Ev{K: "late"})
 			}
 		case 1:
 			c.Ops = append(c.Ops, Ev{K: "fail", Kind: []string{"drop", "wrong", "nonode"}[r.Intn(3)]})
